@@ -169,9 +169,9 @@ func firstFrames(s string) string {
 
 // traceWriter writes NDJSON trace lines.
 type traceWriter struct {
-	f *os.File
-	w *bufio.Writer
-	n int
+	f  *os.File
+	w  *bufio.Writer
+	n  int
 	mu sync.Mutex
 }
 
